@@ -15,6 +15,7 @@ From V Require Import Gen.NodesXml Model.Xml Spec.XmlLex.
 From V Require Import Gen.Cli Model.CliModel Spec.CliDoc.
 From V Require Import Gen.Tagfilter Model.Tagfilter Spec.GfmFilter.
 From V Require Import Spec.Shape.
+From V Require Import Spec.SpSpec.
 Extraction Language OCaml.
 Set Extraction KeepSingleton.
 
@@ -158,4 +159,11 @@ Extraction "model.ml"
   Shape.s3
   Shape.s6
   Shape.s6w
+  SpSpec.strip_sp_pat
+  SpSpec.sp_deleted
+  SpSpec.html_sp_check
+  SpSpec.strip_xml_sourcepos
+  SpSpec.xml_sp_check
+  SpSpec.xdrop_sp
+  SpSpec.xml_sp_tree_check
 .
